@@ -2388,6 +2388,9 @@ func (s *Server) serveConnCounted(c net.Conn, countConcurrency bool) error {
 		connectionClose bool
 
 		continueReadingRequest bool
+
+		// HeaderReceived armed a read deadline for the previous request only.
+		requestReadDeadline bool
 	)
 	for {
 		connRequestNum++
@@ -2406,8 +2409,15 @@ func (s *Server) serveConnCounted(c net.Conn, countConcurrency bool) error {
 				if err = c.SetReadDeadline(time.Now().Add(d)); err != nil {
 					break
 				}
+			} else if requestReadDeadline {
+				// The previous request got its own read deadline from
+				// HeaderReceived: it must not apply to this request.
+				if err = c.SetReadDeadline(zeroTime); err != nil {
+					break
+				}
 			}
 		}
+		requestReadDeadline = false
 
 		if !s.ReduceMemoryUsage || br != nil {
 			if br == nil {
@@ -2502,6 +2512,7 @@ func (s *Server) serveConnCounted(c net.Conn, countConcurrency bool) error {
 						if err = c.SetReadDeadline(deadline); err != nil {
 							break
 						}
+						requestReadDeadline = true
 					}
 					switch {
 					case reqConf.MaxRequestBodySize > 0:
